@@ -204,13 +204,33 @@ FRAMES = [('rep', lambda u, n: u * n), ('lines', lambda u, n: (u + '\n') * n), (
           ('dq', lambda u, n: '"' + u * n + '"'), ('val', lambda u, n: 'k: ' + u * n), ('spaced', lambda u, n: (u + ' ') * n)]
 
 
+class _TooLong(BaseException):
+    pass
+
+
+def _alarm(signum, frame):
+    raise _TooLong()
+
+
 def measure(T, sub, name, mk_fn, detail=''):
     """mk_fn(n) -> zero-argument callable doing the work at size n"""
+    import signal
     ws = []
     for n in (N0, 2 * N0, 4 * N0):
         T.evaluations += 1
         if T.trace: T.begin({'family': name, 'n': n})
-        w = work(mk_fn(n))
+        fn = mk_fn(n)
+        old = signal.signal(signal.SIGALRM, _alarm)
+        signal.setitimer(signal.ITIMER_REAL, 120.0)
+        try:
+            w = work(fn)
+        except _TooLong:
+            sys.setprofile(None)
+            T.violation(sub, 'superlinear-work', {'family': name}, detail='%s: size %d did not finish within 120 s (smaller sizes: %r calls)' % (name, n, ws))
+            return
+        finally:
+            signal.setitimer(signal.ITIMER_REAL, 0)
+            signal.signal(signal.SIGALRM, old)
         if w is None:
             T.count('recursion-limited')
             return
